@@ -354,7 +354,7 @@ func init() {
 		Level: "exploration",
 		Rule: "random programs from a function profile: nested func and method literals (depth ≤ 3) defined in one scope and called from another; parameters named like outer variables; assignments and compound assignments inside bodies followed by reads outside; closures returned, stored and invoked after the captured scope was reassigned; calls with fewer/more arguments than parameters; keyword arguments before/between/after positionals; defaults; *arr / **obj; bodies reading \\, \\N, \\0, \\name, \\_; property calls (method, plain function property, non-callable), o['m](o, …), anonymous chains, literal and variable calls with array receivers, trailing func literals. " +
 			"Every interesting read is printed; stdout lines and the final value are compared with an independent reference evaluator over the generator's AST (package ref). distinct = distinct (feature set, statement count) classes among decided programs; non-trivial = at least one name is shadowed, captured across a call, or bound by a non-trivial argument form" +
-			" Added: focus mode (a factory of depth 2–3 whose kept closures are called, the captured variables reassigned, called again, new closures made; keyword defaults written over the factory's parameter), listings of the keyword arguments received (`\\_.keys/values/items`), closed-form iterator-literal scoping programs (new / chain / copy called from scopes with same-named variables).",
+			" Added: focus mode (a factory of depth 2–3 whose kept closures are called, the captured variables reassigned, called again, new closures made; keyword defaults written over the factory's parameter), listings of the keyword arguments received (`\\_.keys/values/items`), closed-form iterator-literal scoping programs (new / chain / copy called from scopes with same-named variables). Sixth round: iterator steps are fresh frames (locals of a step are not read by the next one; \\N, \\name, parameters and \\_ after a recur with fewer arguments).",
 		Assumptions: []string{
 			"the reference evaluator transcribes the statement: closure = defining frame by reference, each call gets a private frame, assignment writes the innermost frame, lookup walks outwards, positional then keyword binding, receiver first",
 			"it declines (inconclusive) where the documents are silent: arithmetic on nil, \\N beyond the arguments received, \\0 with nil padding, \\name for a keyword not received, duplicate keywords through **, printing functions",
